@@ -51,7 +51,9 @@ class watchdog:
     def __enter__(self):
         try:
             self.old = signal.signal(signal.SIGALRM, _on_alarm)
-            signal.setitimer(signal.ITIMER_REAL, self.seconds)
+            # repeating: code under test that swallows the exception (except BaseException / a finally that keeps looping)
+            # is interrupted again every few seconds until the path really ends
+            signal.setitimer(signal.ITIMER_REAL, self.seconds, 3)
             self.armed = True
         except ValueError:
             self.armed = False
